@@ -35,6 +35,8 @@ Definition must_reject (class : str) : list str :=
   else if seqb class (B "deb-signature-type-callback") then [P_deb]
   else if seqb class (B "archlinux-pkgname") then [P_arch]
   else if seqb class (B "archlinux-platform") then [P_arch]
+  else if seqb class (B "archlinux-pkgname-non-ascii") then [P_arch]
+  else if seqb class (B "archlinux-pkgname-fullwidth") then [P_arch]
   else if seqb class (B "apk-key-format") then [P_apk]
   else if seqb class (B "pgp-key-format") then [P_deb; P_rpm]
   else if seqb class (B "changelog-malformed") then [P_deb; P_rpm]
